@@ -588,7 +588,7 @@ def bounded_walk(rng, L, grid=100):
         xs.append(c)
     return xs
 
-def dense_vs_exact(rng, tier, names, prefix, L=None, huge=True, spec=None):
+def dense_vs_exact(rng, tier, names, prefix, L=None, huge=True, spec=None, grid=100):
     """f64 (release) against the same code at the exact scalar, compared at EVERY step: a stream long enough to pass the usual counter
     thresholds (2^12 in the quick tier, 2^16 and 2^17 in the thorough tier for O(1) views), and window lengths beyond 2^8 (2^16 thorough).
     Effects tied to the number of updates or to a large window cannot hide between samples.  Returns (groups, violations)."""
@@ -602,7 +602,7 @@ def dense_vs_exact(rng, tier, names, prefix, L=None, huge=True, spec=None):
             LL = min(LL, 5000)
         n = rng.choice([2, 3, 7, 20])
         d = (name, E) if unary else (name, n, E)
-        xs = bounded_walk(rng, LL)
+        xs = bounded_walk(rng, LL, grid)
         meta = {"view": name, "regime": "dense-long", "model": False}
         groups.append(("long", Case(d, [("v", 0, x) for x in xs], dict(meta, mode="f64")), Case(d, [("v", 0, x) for x in xs], dict(meta, mode="ex")), None))
         if huge and not unary and name not in ("Ema", "Cyber", "EmaAlpha"):
@@ -613,7 +613,7 @@ def dense_vs_exact(rng, tier, names, prefix, L=None, huge=True, spec=None):
                 steps = n + 40 if name in ("Net", "Cti") else (2 * n + 50)
                 if n > 60000:
                     steps = 2 * n + 50
-                xs = bounded_walk(rng, steps)
+                xs = bounded_walk(rng, steps, grid)
                 meta = {"view": name, "regime": "huge-window", "model": False}
                 groups.append(("long", Case((name, n, E), [("v", 0, x) for x in xs], dict(meta, mode="f64")), Case((name, n, E), [("v", 0, x) for x in xs], dict(meta, mode="ex")), None))
     run_impl([g[1] for g in groups], mode="f64", profile="release")
@@ -1379,7 +1379,9 @@ def run_C16(rng, tier):
     run_impl([g[1] for g in groups], mode="f64", profile="release")
     run_impl([g[2] for g in groups], mode="ex", profile="release", prec=(96, 64))
     viols = O.c16(groups)
-    dg, dv = dense_vs_exact(rng, tier, C16_VIEWS + ["WRolling", "WRollingMean"], "c16")
+    # C16 quantifies over streams whose non-zero magnitudes and step sizes span at most three decades: integer steps 1..99 inside [1, 1000]
+    # (the finer grid of the other properties' dense runs puts nearly flat windows in front of Vst / Vsct: see c02-welford-residue-*)
+    dg, dv = dense_vs_exact(rng, tier, C16_VIEWS + ["WRolling", "WRollingMean"], "c16", grid=1)
     viols += dv
     groups += dg
     # f32, shorter streams
